@@ -168,6 +168,17 @@ func allIndex(s, sub string) []int {
 	}
 }
 
+var paramDeclRe = regexp.MustCompile(`@param\??\s+([A-Za-z_][A-Za-z0-9_]*)`)
+
+func containsStr(xs []string, x string) bool {
+	for _, y := range xs {
+		if y == x {
+			return true
+		}
+	}
+	return false
+}
+
 var (
 	callWithDataSelfClosing = regexp.MustCompile(`(\{call [a-zA-Z0-9_.]+ data="[^"]*")( ?/\})`)
 	callWithDataOpen        = regexp.MustCompile(`\{call [a-zA-Z0-9_.]+ data="[^"]*"\}`)
@@ -196,6 +207,53 @@ var injectors = []injector{
 			return replaceFirstFrom(r, fs, "/**\n", "/**\n * @param zz\n")
 		}
 		return replaceFirstFrom(r, fs, "{@param ", "{@param zz: ?}\n{@param ")
+	}},
+	// an unused param whose NAME is declared and used by an EARLIER template of the bundle (state kept by the
+	// checker from one template to the next must not make it look used)
+	{"unused-param-used-elsewhere", func(r *RNG, fs []srcFile) ([]srcFile, bool) {
+		out := append([]srcFile(nil), fs...)
+		var seen []string // param names of the templates before the current one, in registry order
+		for fi := range out {
+			chunks := strings.SplitAfter(out[fi].content, "{/template}\n")
+			for ci, ch := range chunks {
+				if !strings.Contains(ch, "{template ") {
+					continue
+				}
+				if strings.Contains(ch, "data=\"all\"") {
+					// a call with data="all" hands every param on: the checker rightly counts them all as used
+					for _, m := range paramDeclRe.FindAllStringSubmatch(ch, -1) {
+						seen = append(seen, m[1])
+					}
+					continue
+				}
+				var mine []string
+				for _, m := range paramDeclRe.FindAllStringSubmatch(ch, -1) {
+					mine = append(mine, m[1])
+				}
+				var cand []string
+				for _, n := range seen {
+					if !containsStr(mine, n) && !strings.Contains(ch, "$"+n) {
+						cand = append(cand, n)
+					}
+				}
+				if len(cand) > 0 && r.Intn(2) == 0 {
+					n := cand[r.Intn(len(cand))]
+					switch {
+					case strings.Contains(ch, "{@param"):
+						ch = strings.Replace(ch, "{@param", "{@param? "+n+": ?}\n{@param", 1)
+					case strings.Contains(ch, "/**\n"):
+						ch = strings.Replace(ch, "/**\n", "/**\n * @param? "+n+"\n", 1)
+					default:
+						continue
+					}
+					chunks[ci] = ch
+					out[fi].content = strings.Join(chunks, "")
+					return out, true
+				}
+				seen = append(seen, mine...)
+			}
+		}
+		return nil, false
 	}},
 	{"unused-let", func(r *RNG, fs []srcFile) ([]srcFile, bool) {
 		return bodySite(r, fs, []string{"{let $zq: 1/}", "{let $zq}x{/let}", "{if true}{let $zq: 1/}{/if}", "{let $zq: 1/}{foreach $zq in [1]}{$zq}{/foreach}"}[r.Intn(4)])
